@@ -112,6 +112,10 @@ func genMsgAlg(r *rand.Rand, n int) []string {
 // C06: IV / Partial IV / Base IV presences and lengths
 func genMsgNonce(r *rand.Rand, n int) []string {
 	var out []string
+	// histories of library-chosen nonces under one key, every AEAD algorithm
+	for _, alg := range aeadAlgs {
+		out = append(out, fmt.Sprintf("msg.noncehistory %d %d", alg, 100*n))
+	}
 	for i := 0; i < n; i++ {
 		kind := kindsAll[4+r.Intn(2)]
 		alg := aeadAlgs[r.Intn(len(aeadAlgs))]
@@ -159,6 +163,25 @@ func genMsgNonce(r *rand.Rand, n int) []string {
 		out = append(out, p.consumeLine(p.data, p.ext, []string{k2}))
 		for j := 0; j < 2; j++ {
 			out = append(out, tamper(r, p))
+		}
+		// history on one key object: a second encryption (other Partial IV / IV), and decryption after encryption —
+		// each must derive its nonce as if the key had never been used
+		if i%2 == 0 {
+			var u2 []string
+			switch r.Intn(3) {
+			case 0:
+				u2 = append(u2, "int:6", "b:"+hx(randBytes(r, 1+r.Intn(ns-1))))
+			case 1:
+				u2 = append(u2, "int:6", "b:"+hx([]byte{byte(1 + r.Intn(9))}))
+			default:
+				u2 = append(u2, "int:5", "b:"+hx(randBytes(r, ns)))
+			}
+			p2 := buildProduce(r, kind, mode, payloadTok(r, mode, false), "nil", "{ "+strings.Join(u2, " ")+" }", extTok(r), []msgKey{k})
+			out = append(out, "seq "+p.line+" ;; "+p2.line)
+			out = append(out, "seq "+p.line+" ;; "+p2.line+" ;; "+p.consumeLine(p.data, p.ext, p.pubKeys()))
+			if p2.ok && p2.data != nil {
+				out = append(out, "seq "+p.consumeLine(p.data, p.ext, p.pubKeys())+" ;; "+p2.consumeLine(p2.data, p2.ext, p2.pubKeys())+" ;; "+p.consumeLine(p.data, p.ext, p.pubKeys()))
+			}
 		}
 	}
 	return out
@@ -216,7 +239,7 @@ func genMsgForeign(r *rand.Rand, n int) []string {
 			extOrEmpty = []byte{}
 		}
 		payload := randBytes(r, []int{0, 1, 23, 24, 255, 256, 300}[r.Intn(7)])
-		bodyProt := foreignBucket(r, alg, kind != "sign")
+		bodyProt := foreignBucket(r, alg, kind != "sign" && r.Intn(4) != 0) // a quarter carry no alg: the bucket may be h'a0' or h''
 		unprotKids := []*cnode{}
 		if len(k.kid) > 0 && kind != "sign" {
 			unprotKids = append(unprotKids, &cnode{mt: 0, n: 4}, &cnode{mt: 2, b: k.kid})
@@ -246,7 +269,7 @@ func genMsgForeign(r *rand.Rand, n int) []string {
 				members = append(members, &cnode{mt: 4, kids: []*cnode{{mt: 4, kids: []*cnode{{mt: 2, b: foreignBucket(r, -6, true)}, {mt: 5}, {mt: 2, b: []byte{}}}}}})
 			}
 		case "sign":
-			signProt := foreignBucket(r, alg, true)
+			signProt := foreignBucket(r, alg, r.Intn(4) != 0) // a quarter without alg: h'a0' or h''
 			tobe := encStructure("Signature", bodyProt, signProt, extOrEmpty, payload)
 			s, err := kk.Signer()
 			if err != nil {
